@@ -16,6 +16,10 @@ import PPLV.Lattice.ProofsConvCGCert
 import PPLV.Lattice.ProofsConvGCComplete
 import PPLV.Lattice.ProofsConvGCCertB
 import PPLV.Lattice.ProofsConvGCTri
+import PPLV.Lattice.ProofsConvCGFinal
+import PPLV.Lattice.ProofsConvCGTri
+import PPLV.Lattice.ProofsConvCGHom
+import PPLV.Lattice.ProofsRedCgConv
 
 /-!
 # C05, stage 2 — Grid's own algorithms: `Grid::simplify` (both overloads), `Grid::conversion` (both directions)
@@ -87,6 +91,13 @@ theorem reduce_equality_with_equality_preserves (rows : List CRow) (ri pi dim : 
     Sol (rows.set ri (reduceEqualityWithEquality (rowAt rows ri) (rowAt rows pi) dim)) x ↔ Sol rows x :=
   reduceEqualityWithEquality_sol rows ri pi dim hpi hne hl hrm hpm hrz hpz hpc x
 
+/-- `2y + 1 = 0`, `3y = 0` (pivot): the row becomes `3·(2y + 1) - 2·(3y) = 3` -/
+example : ∀ x, Sol ([⟨[0, 3], 0⟩, ⟨[1, 2], 0⟩].set 1 (reduceEqualityWithEquality ⟨[1, 2], 0⟩ ⟨[0, 3], 0⟩ 1)) x ↔
+    Sol [⟨[0, 3], 0⟩, ⟨[1, 2], 0⟩] x :=
+  reduce_equality_with_equality_preserves [⟨[0, 3], 0⟩, ⟨[1, 2], 0⟩] 1 0 1 (by decide) (by decide) rfl rfl rfl
+    (fun j hj => get_of_length_le _ _ (by show 2 ≤ j; omega)) (fun j hj => get_of_length_le _ _ (by show 2 ≤ j; omega))
+    (by decide)
+
 /-- `reduce_pc_with_pc` on two proper congruences with the same modulus: a unimodular row operation -/
 theorem reduce_pc_with_pc_congs_preserves (rows : List CRow) (ri pi dim : Nat)
     (hri : ri < rows.length) (hpi : pi < rows.length) (hne : pi ≠ ri)
@@ -97,6 +108,13 @@ theorem reduce_pc_with_pc_congs_preserves (rows : List CRow) (ri pi dim : Nat)
     Sol ((rows.set ri (reducePcWithPc (rowAt rows ri) (rowAt rows pi) dim 0 (dim + 1)).1).set pi
       (reducePcWithPc (rowAt rows ri) (rowAt rows pi) dim 0 (dim + 1)).2) x ↔ Sol rows x :=
   reducePcWithPc_sol rows ri pi dim hri hpi hne hl hmm hrz hpz hpc hrc x
+
+/-- `2y + 1 ≡ 0`, `4y + 3 ≡ 0 (mod 4)` -/
+example : ∀ x, Sol (([⟨[3, 4], 4⟩, ⟨[1, 2], 4⟩].set 1 (reducePcWithPc (⟨[1, 2], 4⟩ : CRow) ⟨[3, 4], 4⟩ 1 0 2).1).set 0
+      (reducePcWithPc (⟨[1, 2], 4⟩ : CRow) ⟨[3, 4], 4⟩ 1 0 2).2) x ↔ Sol [⟨[3, 4], 4⟩, ⟨[1, 2], 4⟩] x :=
+  reduce_pc_with_pc_congs_preserves [⟨[3, 4], 4⟩, ⟨[1, 2], 4⟩] 1 0 1 (by decide) (by decide) (by decide) rfl rfl
+    (fun j hj => get_of_length_le _ _ (by show 2 ≤ j; omega)) (fun j hj => get_of_length_le _ _ (by show 2 ≤ j; omega))
+    (by decide) (by decide)
 
 /-- `reduce_congruence_with_equality`: all proper congruences are scaled by one positive factor, then a multiple
     of the equality is subtracted -/
@@ -203,6 +221,20 @@ theorem reduce_parameter_with_line_preserves {n p dim ri : Nat} {rows : List GRo
     (hrl : (rowAt rows ri).line = false) (hpl : (rowAt rows p).line = true) :
     HomSim n rows (reduceParameterWithLine rows ri p dim (n + 1 + 1)) :=
   reduceParameterWithLine_homSim hri hp hne hle hwf hz hdim hpc hrl hpl
+
+/-- `reduce_parameter_with_line(rows[2], rows[1], 1, rows, 3)` on point `0`, line `(2)`, parameter `(3)`: the general
+    branch, multiplier 2 -/
+example : HomSim 1 exRows1 (reduceParameterWithLine exRows1 2 1 1 (1 + 1 + 1)) :=
+  reduce_parameter_with_line_preserves (n := 1) (p := 1) (dim := 1) (ri := 2) (by decide) (by decide) (by decide)
+    (by decide) (wfI_of_gwf exRows1_wf)
+    (by
+      intro i h1 h2 c hc
+      have hc0 : c = 0 := by omega
+      subst hc0
+      have h3 : i < 3 := h2
+      have : i = 1 ∨ i = 2 := by omega
+      rcases this with rfl | rfl <;> rfl)
+    (by decide) (by decide) (by decide) (by decide)
 
 /-- `reduce_reduced` (generator instance) under the triangular invariant `Tri` of the rows above the pivot -/
 theorem reduce_reduced_gens_preserves {n p dim : Nat} {dk : List Nat} {rows : List GRow}
@@ -332,6 +364,74 @@ theorem simplify_conversion_gens_k2 (n : Nat) (D : Int) (rows : List GRow) (dk :
 /-- on the instance above: `x₀ - x₁ ≡ 1/2 (mod 3/2)` in the form the library prints it -/
 example : conversionGensToCgs 2 (simplifyGens 2 exGRows []).1 (simplifyGens 2 exGRows []).2 =
     [{ e := [1, -2, 2], m := 3 }, { e := [3, 0, 0], m := 3 }] := by decide +kernel
+
+/-! ## `Grid::conversion(Congruence_System&, Grid_Generator_System&, Dimension_Kinds&)`
+
+Hypotheses: the source is accepted by `Grid::lower_triangular` with these `dim_kinds`, `kind dk 0 = PROPER_CONGRUENCE`
+(the integrality congruence), and the kinds agree with the moduli of the rows, the proper congruences sharing one
+modulus which is the inhomogeneous term of the last row (`CgKindsOK`) — all conclusions of `simplify_congs_triangular`
+(`final_cgKindsOK`). -/
+
+/-- `multiply_grid` (generator instance): scaling every parameter/point (or one line) keeps the lattice up to the factor -/
+theorem multiply_grid_gens_preserves (n : Nat) (mult : Int) (hm : 0 < mult) (dest : List GRow) (gi N : Nat)
+    (hN : dest.length ≤ N) : HomSim n dest (multiplyGridGen mult dest gi N) :=
+  multiplyGridGen_homSim n mult hm dest gi N hN
+
+/-- **congruences → generators is exact**: the produced generators (divisor `D'` = inhomogeneous term of the point,
+    row 0) denote the grid of the source; the certificate checker accepts the model's output -/
+theorem conversion_congs_to_gens_correct (n : Nat) (source : List CRow) (dk : List Nat) (hc : CWf n source)
+    (hlt : lowerTriangular n source dk = true) (hdk : dk.length = n + 1) (h0 : kind dk 0 = PROPER_CONGRUENCE)
+    (hkm : CgKindsOK n source dk) :
+    let dest := conversionCgsToGens n source dk
+    GWf n dest ∧ cgCertB n source dest = true ∧
+      ∀ x, Hom n dest (homog ((Red.get (rowAt dest 0).e 0 : Int) : ℚ) x) ↔ cgsSem n source x :=
+  ⟨(conversionCgsToGens_correct n source dk hc hlt hdk h0 hkm).1, conversionCgsToGens_cert n source dk hc hlt hdk h0 hkm,
+   (conversionCgsToGens_correct n source dk hc hlt hdk h0 hkm).2⟩
+
+/-- the produced system is accepted by `Grid::upper_triangular`, and its divisors are normalised -/
+theorem conversion_congs_to_gens_triangular (n : Nat) (source : List CRow) (dk : List Nat)
+    (hlt : lowerTriangular n source dk = true) (h0 : kind dk 0 = PROPER_CONGRUENCE) (hkm : CgKindsOK n source dk) :
+    upperTriangular n (conversionCgsToGens n source dk) dk = true ∧
+    GNorm n (Red.get (rowAt (conversionCgsToGens n source dk) 0).e 0) (conversionCgsToGens n source dk) :=
+  ⟨conversionCgsToGens_triangular n source dk hlt h0 hkm.kinds, cgc_gnorm n source dk hlt h0 hkm⟩
+
+/-- `2x - 1 ≡ 0 (mod 3)` with the integrality row: the point `1/2`, the parameter `3/2` -/
+example :
+    let source : List CRow := [{ e := [-1, 2], m := 3 }, { e := [3, 0], m := 3 }]
+    let dk : List Nat := [PROPER_CONGRUENCE, PROPER_CONGRUENCE]
+    CWf 1 source ∧ lowerTriangular 1 source dk = true ∧ dk.length = 1 + 1 ∧ kind dk 0 = PROPER_CONGRUENCE ∧
+      CgKindsOK 1 source dk ∧
+      conversionCgsToGens 1 source dk = [{ line := false, e := [2, 1, 0] }, { line := false, e := [0, 3, 2] }] := by
+  refine ⟨?_, by decide, rfl, rfl, ⟨3, ?_, by decide⟩, by decide⟩
+  · intro c hc; simp at hc; rcases hc with rfl | rfl <;> exact ⟨rfl, by decide⟩
+  · intro d hd
+    have : d = 0 ∨ d = 1 := by omega
+    rcases this with rfl | rfl <;> exact Or.inr (Or.inr ⟨rfl, by decide⟩)
+
+/-- **end to end (what `Grid::update_generators` does): simplify, then convert.**  When the flag is `false` the
+    generators produced by the two models denote exactly the solutions of the input system, are in the form
+    `Grid::upper_triangular` asserts, have normalised divisors, … -/
+theorem simplify_conversion_congs_correct (n : Nat) (rows : List CRow) (dk : List Nat) (hwf : CWf n rows) :
+    let r := simplifyCgs n rows dk
+    r.2.2 = false →
+      let dest := conversionCgsToGens n r.1 r.2.1
+      GWf n dest ∧ upperTriangular n dest r.2.1 = true ∧ GNorm n (Red.get (rowAt dest 0).e 0) dest ∧
+        ∀ x, Hom n dest (homog ((Red.get (rowAt dest 0).e 0 : Int) : ℚ) x) ↔ cgsSem n rows x := by
+  intro r hf dest
+  obtain ⟨h1, h2, h3⟩ := simplify_conversionCgsToGens_correct n rows dk hwf hf
+  exact ⟨h1, h2, simplifyCgs_conversion_gnorm n rows dk hwf hf, h3⟩
+
+/-- … and K2's verified equality decider accepts their PPL reading against K2's own conversion of the input -/
+theorem simplify_conversion_congs_k2 (n : Nat) (rows : List CRow) (dk : List Nat) (hwf : CWf n rows) :
+    let r := simplifyCgs n rows dk
+    r.2.2 = false →
+      let dest := conversionCgsToGens n r.1 r.2.1
+      ∃ G, gensOf n dest = some G ∧ equivB G (consToGens n (cgsOf rows)) = true :=
+  simplifyCgs_conversion_k2_equiv n rows dk hwf
+
+/-- `x ≡ 1 (mod 2)`, `x + y = 0`, `y ≡ 0 (mod 3)`: the point `(3, -3)` and the parameter `(6, -6)` -/
+example : conversionCgsToGens 2 (simplifyCgs 2 exRows []).1 (simplifyCgs 2 exRows []).2.1 =
+    [{ line := false, e := [1, 3, -3, 0] }, { line := false, e := [0, 6, -6, 1] }] := by decide +kernel
 
 /-! ## `Grid::conversion`: certificates (evaluated by the driver on every real output) -/
 
